@@ -192,46 +192,68 @@ def table_overrides(F, tabs):
     return out
 
 
-def letter_weights(prog):
-    """({'nucleotide': [128 weights], 'protein': [...]}, lits, tabs) of detect_alphabet's two letter models, including single
-    entries set after the loops (e.g. protein['U'] = protein['T'])"""
+def _detect_fns(prog):
     F = prog.fn("detect_alphabet")
-    lits, tabs = models(prog, F)
-    tabs = {k: v for k, v in tabs.items() if v["lit"] is not None and v["default"] is not None}
-    if len(tabs) != 2:
-        raise AnalysisBroken("R13b slot: the two letter models of detect_alphabet were not recognised (%d)" % len(tabs))
-    Wd = {}
-    for did, t in tabs.items():
-        text = lits[t["lit"]][1]
-        t["kind"] = "protein" if len(set(text.upper()) - set(NUC)) >= 10 else "nucleotide"
-        w = [t["default"]] * 128
-        for c in text:
-            if ord(c) < 128:
-                w[ord(c)] = t["value"]
-        Wd[did] = w
-    for did, idx, what, node in table_overrides(F, tabs):
-        if not 0 <= idx < 128:
-            continue
-        Wd[did][idx] = what[1] if what[0] == "val" else Wd[what[1]][what[2]]
-    if sorted(t["kind"] for t in tabs.values()) != ["nucleotide", "protein"]:
-        # the letter sets do not tell the models apart (e.g. a nucleotide set extended by ambiguity codes): the model whose
-        # total, when it is the larger one, makes the decision ALN_BIOTYPE_DNA is the nucleotide model
-        byuse = _classify_by_decision(F, tabs)
-        if byuse is None:
-            raise AnalysisBroken("R13b slot: models classified as %s" % sorted(t["kind"] for t in tabs.values()))
-        for d, k in byuse.items():
-            tabs[d]["kind"] = k
-    return {tabs[d]["kind"]: w for d, w in Wd.items()}, lits, tabs
+    fns = [F]
+    for c in F.body.calls():
+        H = prog.functions.get(c.callee) if c.callee else None
+        if H is not None and H.body is not None and H.static and H.file == F.file and H not in fns:
+            fns.append(H)
+    return F, fns
 
 
-def _classify_by_decision(F, tabs):
+def interp_tables(prog):
+    """{decl id: (name, [128 floats])}: the 128-entry double tables detect_alphabet has built when it first looks at its
+    argument - obtained by constant evaluation of its input-free prefix (loops unrolled, private helpers inlined, log()
+    evaluated), so it does not matter how the tables are written down"""
+    from ..consteval import Interp, Undecided, Ptr
+    F = prog.fn("detect_alphabet")
+    it = Interp(prog)
+    env = {}
+    if F.params:
+        env[F.params[0]["did"]] = Ptr(it.new_struct("msa"))
+    for st in F.body.kids:
+        try:
+            it.stmt(st, env)
+        except Undecided:
+            break
+        except Exception:
+            break
+    names = {dd["did"]: dd["name"] for d in F.body.find("DeclStmt") for dd in d.d["decls"]}
+    out = {}
+    for did, v in env.items():
+        if isinstance(v, list) and len(v) == 128 and all(isinstance(x, float) for x in v):
+            out[did] = (names.get(did, "?"), list(v))
+    return out
+
+
+def _accumulators(prog, tables):
+    """{accumulator decl id in detect_alphabet: table decl id}: `acc += T[i] * freq` directly, or `acc = helper(.., T, ..)`"""
+    F, fns = _detect_fns(prog)
     acc = {}
     for a in F.body.find("CompoundAssignOperator"):
-        if a.d["op"] != "+=":
-            continue
-        tv = [r for r in a.kids[1].find("DeclRefExpr") if r.d["did"] in tabs]
-        if len(tv) == 1 and a.kids[0].strip().k == "DeclRefExpr":
-            acc[a.kids[0].strip().d["did"]] = tv[0].d["did"]
+        if a.d["op"] == "+=" and a.kids[0].strip().k == "DeclRefExpr":
+            tv = [r for r in a.kids[1].find("DeclRefExpr") if r.d["did"] in tables]
+            if len(tv) == 1:
+                acc[a.kids[0].strip().d["did"]] = tv[0].d["did"]
+    for a in list(F.body.find("BinaryOperator")) + [k for d in F.body.find("DeclStmt") for k in d.kids if k.role == "declinit"]:
+        if a.k == "BinaryOperator":
+            if a.d["op"] != "=" or a.kids[0].strip().k != "DeclRefExpr":
+                continue
+            lhs_did, rhs = a.kids[0].strip().d["did"], a.kids[1].strip(casts=True)
+        else:
+            lhs_did, rhs = a.decl["did"], a.strip(casts=True)
+        if rhs.k == "CallExpr" and prog.functions.get(rhs.callee) in fns:
+            tv = [r for x in rhs.args for r in x.find("DeclRefExpr") if r.d["did"] in tables]
+            if len(tv) == 1:
+                acc[lhs_did] = tv[0].d["did"]
+    return acc
+
+
+def _classify(prog, tables, acc):
+    """table decl id -> 'nucleotide' | 'protein' by use: the model whose total, when it is the larger one, makes the decision
+    ALN_BIOTYPE_DNA is the nucleotide model"""
+    F = prog.fn("detect_alphabet")
     out = {}
     for a, lhs, rhs in stores_to_field(F.body, "msa", "biotype"):
         m = macro_of_const(rhs.strip(casts=True))
@@ -244,85 +266,117 @@ def _classify_by_decision(F, tabs):
                 l, r = c0.kids[0].strip(casts=True), c0.kids[1].strip(casts=True)
                 if l.k == "DeclRefExpr" and r.k == "DeclRefExpr" and l.d["did"] in acc and r.d["did"] in acc:
                     bigger = l if (c0.d["op"] in (">", ">=")) == pol else r
-                    out[acc[bigger.d["did"]]] = want
-    return out if sorted(out.values()) == ["nucleotide", "protein"] and set(out) == set(tabs) else None
+                    out.setdefault(acc[bigger.d["did"]], set()).add(want)
+    return out
+
+
+def letter_weights(prog):
+    """({'nucleotide': [128 weights], 'protein': [...]}, {kind: table name}) of detect_alphabet's two letter models"""
+    tables = interp_tables(prog)
+    if len(tables) != 2:
+        raise AnalysisBroken("R13b slot: the two letter models of detect_alphabet were not recognised (%d table(s) of 128 doubles "
+                             "after constant evaluation of its prefix)" % len(tables))
+    acc = _accumulators(prog, tables)
+    kinds = _classify(prog, tables, acc)
+    if sorted(kinds) != sorted(tables) or any(len(v) != 1 for v in kinds.values()) or \
+            sorted(next(iter(v)) for v in kinds.values()) != ["nucleotide", "protein"]:
+        raise AnalysisBroken("R13b slot: which letter model decides for which kind is not resolved (%s)" % {tables[d][0]: sorted(v) for d, v in kinds.items()})
+    W = {next(iter(kinds[d])): tables[d][1] for d in tables}
+    return W, {next(iter(kinds[d])): tables[d][0] for d in tables}, acc
+
+
+def voters_of(prog, tables):
+    """the byte values whose counts enter the totals: the accumulation statement (in detect_alphabet or in the private helper
+    that computes one total) is found, and the guards between it and its loop are evaluated for every value of the loop index"""
+    from ..affine import loop_range
+    F, fns = _detect_fns(prog)
+    voters = None
+    loops_seen = []
+    for G in fns:
+        for a in G.body.find("CompoundAssignOperator"):
+            if a.d["op"] != "+=" or a.kids[0].strip().ty != "double":
+                continue
+            src = [r for r in a.kids[1].find("DeclRefExpr") if r.d["did"] in tables or
+                   (r.d.get("dk") == "Parm" and r.ty.replace("const ", "").replace(" ", "") == "double*")]
+            if not src:
+                continue
+            _FEVAL_FN[0] = G
+            loops = [x for x in a.ancestors() if x.k == "ForStmt"]
+            if not loops:
+                raise AnalysisBroken("R13b: model accumulation at %s is not in a loop" % a.loc)
+            iv = loops[0].child("inc").strip().kids[0].strip()
+            sym = Sym(did=iv.d["did"], ty="int")
+            vs = set()
+            for c in range(128):
+                ok = True
+                for cond, pol in guards(a, stop=loops[0]):
+                    if cond.parent.k != "IfStmt":
+                        continue
+                    # the histogram count itself is positive for a character that occurs: treat `letter_freq[i]` as true
+                    r = _ev_filter(cond, sym, c)
+                    if r is not None and bool(r) != pol:
+                        ok = False
+                if ok:
+                    vs.add(c)
+            voters = vs if voters is None else voters & vs
+            loops_seen.append((loops[0], loop_range(loops[0])))
+    return voters, loops_seen
 
 
 def r13b(ck, prog, premise=True):
-    from ..affine import loop_range
     F = prog.fn("detect_alphabet")
-    lits, tabs = models(prog, F)
-    tabs = {k: v for k, v in tabs.items() if v["lit"] is not None and v["default"] is not None}
-    if len(tabs) != 2:
-        raise AnalysisBroken("R13b slot: the two letter models of detect_alphabet were not recognised (%d)" % len(tabs))
-    kind = {}
-    _W, _l, _t = letter_weights(prog)
-    for did, t in tabs.items():
-        name, text, arr, decl = lits[t["lit"]]
-        kind[did] = _t[did]["kind"]
-        t["kind"] = kind[did]
-        where = site(prog, decl, name)
-        ck.inst("R13b", where, "%s model: literal %r (%d letters) in char[%d]; member weight %.4f, default %.4f" % (
-            kind[did], text, len(text), arr, t["value"], t["default"]), prog.config)
-        if arr != len(text):
-            ck.violation("R13b", "R13b/detect_alphabet/%s-length" % kind[did], where,
-                         "array %s has %d entries for a %d-letter literal" % (name, arr, len(text)), prog.config)
-        for what, lp in t["loops"]:
-            if lp is None:
-                continue
-            rng = loop_range(lp)
-            want = 128 if what == "default" else len(text)
-            if rng is None or not (rng[1].is_const() and rng[1].c == 0 and rng[2].is_const() and rng[2].c == want):
-                ck.violation("R13b", "R13b/detect_alphabet/%s-%s-loop" % (kind[did], what), site(prog, lp),
-                             "the loop that fills the %s model's %s entries covers %s instead of [0, %d): letters are dropped silently" % (
-                                 kind[did], what, ("[%s, %s)" % (rng[1], rng[2])) if rng else "?", want), prog.config)
-        if {c.swapcase() for c in text if c.isalpha()} != {c for c in text if c.isalpha()}:
-            ck.violation("R13b", "R13b/detect_alphabet/%s-case" % kind[did], where,
-                         "the %s letter set %r is not closed under case" % (kind[did], text), prog.config)
-        if kind[did] == "nucleotide":
-            missing = [c for c in NUC + NUC.lower() if c not in text]
-            if missing:
-                ck.violation("R13b", "R13b/detect_alphabet/nucleotide-letters", where,
-                             "the nucleotide model lacks %s: such sequences are not recognised as nucleotide" % "".join(missing), prog.config)
-    if sorted(kind.values()) != ["nucleotide", "protein"]:
-        raise AnalysisBroken("R13b slot: models classified as %s" % sorted(kind.values()))
-    # weights per character
-    W = letter_weights(prog)[0]
-    # accumulators and the voting filter
-    acc = {}
-    voters = None
-    for a in F.body.find("CompoundAssignOperator"):
-        if a.d["op"] != "+=":
-            continue
-        tv = [r for r in a.kids[1].find("DeclRefExpr") if r.d["did"] in tabs]
-        if len(tv) != 1 or not any(m.d.get("field") == "letter_freq" for m in a.kids[1].find("MemberExpr")):
-            continue
-        accv = a.kids[0].strip()
-        acc[accv.d["did"]] = tabs[tv[0].d["did"]]["kind"]
-        loops = [x for x in a.ancestors() if x.k == "ForStmt"]
-        if not loops:
-            raise AnalysisBroken("R13b: model accumulation at %s is not in a loop" % a.loc)
-        iv = loops[0].child("inc").strip().kids[0].strip()
-        sym = Sym(did=iv.d["did"], ty="int")
-        vs = set()
-        for c in range(128):
-            ok = True
-            for cond, pol in guards(a, stop=loops[0]):
-                if cond.parent.k != "IfStmt":
+    W, names, acc = letter_weights(prog)
+    tables = interp_tables(prog)
+    for kind in ("nucleotide", "protein"):
+        w = W[kind]
+        hit = max(w)
+        letters = "".join(chr(c) for c in range(128) if w[c] == hit)
+        ck.inst("R13b", site(prog, F, names[kind]), "%s model %s (constant-evaluated): %d symbols carry the member weight %.4f (%s), the others %.4f" % (
+            kind, names[kind], len(letters), hit, letters, min(w)), prog.config)
+    missing = [c for c in NUC + NUC.lower() if W["nucleotide"][ord(c)] != max(W["nucleotide"])]
+    if missing:
+        ck.violation("R13b", "R13b/detect_alphabet/nucleotide-letters", site(prog, F),
+                     "the nucleotide model does not give %s the member weight: such sequences are not recognised as nucleotide" % "".join(missing), prog.config)
+    # the syntactic checks on the literals (array length = literal length, loop ranges) where the tables are written that way
+    try:
+        lits, tabs = models(prog, F)
+        tabs = {k: v for k, v in tabs.items() if v["lit"] is not None and v["default"] is not None}
+    except Exception:
+        tabs = {}
+    if len(tabs) == 2:
+        from ..affine import loop_range
+        for did, t in tabs.items():
+            name, text, arr, decl = lits[t["lit"]]
+            where = site(prog, decl, name)
+            if arr != len(text):
+                ck.violation("R13b", "R13b/detect_alphabet/%s-length" % name, where,
+                             "array %s has %d entries for a %d-letter literal" % (name, arr, len(text)), prog.config)
+            for what, lp in t["loops"]:
+                if lp is None:
                     continue
-                # the histogram count itself is positive for a character that occurs: treat `letter_freq[i]` as true
-                r = _ev_filter(cond, sym, c)
-                if r is not None and bool(r) != pol:
-                    ok = False
-            if ok:
-                vs.add(c)
-        voters = vs if voters is None else voters & vs
-        rng = loop_range(loops[0])
-        if rng is None or not (rng[1].is_const() and rng[1].c == 0 and rng[2].is_const() and rng[2].c == 128):
-            ck.violation("R13b", "R13b/detect_alphabet/vote-loop", site(prog, loops[0]),
-                         "the voting loop does not cover the histogram [0,128)", prog.config)
-    if sorted(acc.values()) != ["nucleotide", "protein"] or voters is None:
+                rng = loop_range(lp)
+                want = 128 if what == "default" else len(text)
+                if rng is None or not (rng[1].is_const() and rng[1].c == 0 and rng[2].is_const() and rng[2].c == want):
+                    ck.violation("R13b", "R13b/detect_alphabet/%s-%s-loop" % (name, what), site(prog, lp),
+                                 "the loop that fills %s's %s entries covers %s instead of [0, %d): letters are dropped silently" % (
+                                     name, what, ("[%s, %s)" % (rng[1], rng[2])) if rng else "?", want), prog.config)
+    else:
+        ck.info("R13b", "the letter models are not written as literal + loop; the syntactic length / loop-range clauses do not apply "
+                        "(the constant-evaluated tables are what the remaining clauses use)")
+    for kind in ("nucleotide", "protein"):
+        w = W[kind]
+        bad = [c for c in "ABCDEFGHIJKLMNOPQRSTUVWXYZ" if (w[ord(c)] == max(w)) != (w[ord(c.lower())] == max(w))]
+        if bad:
+            ck.violation("R13b", "R13b/detect_alphabet/%s-case" % kind, site(prog, F, names[kind]),
+                         "the %s letter set is not closed under case (%s)" % (kind, "".join(bad)), prog.config)
+    # the voting filter
+    voters, loops_seen = voters_of(prog, tables)
+    if voters is None or sorted(acc.values()) != sorted(tables):
         raise AnalysisBroken("R13b slot: the two model totals were not recognised")
+    for lp, rng in loops_seen:
+        if rng is None or not (rng[1].is_const() and rng[1].c == 0 and rng[2].is_const() and rng[2].c == 128):
+            ck.violation("R13b", "R13b/detect_alphabet/vote-loop", site(prog, lp),
+                         "the voting loop does not cover the histogram [0,128)", prog.config)
     letters = {c for c in range(128) if chr(c).isalpha()}
     nonletter_voters = sorted(voters - letters)
     ck.inst("R13b", site(prog, F, "voters"), "%d characters can vote; non-letters among them: %s" % (
@@ -364,26 +418,14 @@ def r13b(ck, prog, premise=True):
                          "input in which a quarter (even a third) of the residues are '%s' - a letter that occurs only in proteins - and the "
                          "rest are amino-acid letters that are also nucleotide letters (A, C, G, T, N) is classified as nucleotide: '%s' weighs "
                          "%.2f towards protein, each of the others up to %.2f towards nucleotide" % (c, c, m_po, m_sh), prog.config)
-    # decision polarity
+    # decision polarity is what classified the models; both kinds must be decided somewhere
     n_dec = 0
     for a, lhs, rhs in stores_to_field(F.body, "msa", "biotype"):
         m = macro_of_const(rhs.strip(casts=True))
-        want = {"ALN_BIOTYPE_DNA": "nucleotide", "ALN_BIOTYPE_PROTEIN": "protein"}.get(m)
-        if want is None:
-            continue
-        n_dec += 1
-        ok = False
-        for cond, pol in guards(a):
-            c0 = cond.strip()
-            if c0.k == "BinaryOperator" and c0.d["op"] in (">", "<", ">=", "<="):
-                l, r = c0.kids[0].strip(casts=True), c0.kids[1].strip(casts=True)
-                if l.k == "DeclRefExpr" and r.k == "DeclRefExpr" and l.d["did"] in acc and r.d["did"] in acc:
-                    bigger = acc[l.d["did"]] if (c0.d["op"] in (">", ">=")) == pol else acc[r.d["did"]]
-                    ok = ok or bigger == want
-        ck.inst("R13b", site(prog, a, "decision"), "biotype = %s where the %s total is larger: %s" % (m, want, ok), prog.config)
-        if not ok:
-            ck.violation("R13b", "R13b/detect_alphabet/decision-%s" % want, site(prog, a),
-                         "%s is assigned where the %s model does not have the larger total" % (m, want), prog.config)
+        if m in ("ALN_BIOTYPE_DNA", "ALN_BIOTYPE_PROTEIN"):
+            n_dec += 1
+            ck.inst("R13b", site(prog, a, "decision"), "biotype = %s where the %s total is larger" % (
+                m, "nucleotide" if m == "ALN_BIOTYPE_DNA" else "protein"), prog.config)
     if n_dec < 2:
         raise AnalysisBroken("R13b slot: biotype decisions not found")
 
@@ -401,6 +443,12 @@ def _ev_filter(cond, sym, c):
     if any(m.d.get("field") == "letter_freq" for m in n.find("MemberExpr")) and not any(
             x.k == "CallExpr" or (x.k == "BinaryOperator" and x.d["op"] == "&" and x.mac) for x in n.walk()):
         return 1
+    n0 = n.strip(casts=True)
+    if n0.k == "DeclRefExpr" and n0.d.get("dk") == "Var" and _FEVAL_FN[0] is not None:
+        # a local that holds the count (freq = msa->letter_freq[i]): positive for a character that occurs
+        defs = [d for d, _ in local_defs(_FEVAL_FN[0], n0.d["did"]) if d is not None]
+        if defs and all(any(m.d.get("field") == "letter_freq" for m in d.find("MemberExpr")) for d in defs):
+            return 1
     return ev(n, sym, c)
 
 
